@@ -1,6 +1,6 @@
 """C06 Execution and code generation stay inside their buffers for every program."""
 import astq
-from rules import aes, cgsize, decode, driver, dsinit, jitcross, membound, rv64, sshash, x86hsem
+from rules import a64hsem, aes, cgsize, decode, driver, dsinit, jitcross, membound, rv64, rvhsem, sshash, x86hsem
 
 LEVEL = 'other'
 TECHNIQUE = 'max-plus abstract interpretation of the x86 emitter against the assembled fragment sizes, mask-set and typestate rules on every scratchpad address of the interpreter, interval arithmetic on dataset/cache indices, constant agreement C++ vs .S'
@@ -32,3 +32,6 @@ def run(ctx, R):
     aes.rule_cover(ctx, R, F)
     driver.rule_bind_excl(ctx, R)
     x86hsem.rule_mem_hsem(ctx, R)    # every scratchpad access of the emitted memory-form instructions is masked with an in-range mask
+    driver.rule_bind_guard(ctx, R, F)    # a VM reads the cache / dataset it is bound to: the binding follows every set_cache that changes what a bind captures
+    a64hsem.rule_mem_hsem(ctx, R)
+    rvhsem.rule_mem_hsem(ctx, R)
